@@ -86,6 +86,21 @@ NP_KIND = {"float16": "f", "float32": "f", "float64": "f", "complex64": "c", "co
 
 def ext_getattr(ev, obj: ExtV, name, fr, node):
     d = obj.dotted
+    if d.startswith("numpy.") and d.endswith(":swapped") and d[6:-8] in NP_KIND:
+        # a dtype of non-native byte order: same kind/name/scalar type as the native one, but not equal to it
+        base = ExtV(d[:-8])
+        if name in ("kind", "name", "itemsize", "type"):
+            return ext_getattr(ev, base, name, fr, node)
+        if name == "dtype":
+            return obj
+        if name == "isnative":
+            return BoolV(False)
+        if name == "byteorder":
+            return StrV(">")
+        if name == "newbyteorder":
+            return BoundBuiltin(obj, name)
+    if d.startswith("numpy.") and d[6:] in NP_KIND and name in ("isnative",):
+        return BoolV(True)
     if d.startswith("numpy.") and d[6:] in NP_KIND and name in ("kind", "name", "itemsize", "type", "dtype"):
         if name == "kind":
             return StrV(NP_KIND[d[6:]])
@@ -891,6 +906,8 @@ def num_getattr(ev, obj: Num, name, fr, node):
         return obj.dtype if obj.dtype is not None else ExtV("numpy.dtype:unknown")
     if name == "isscalar":
         return BoolV(obj.shape is None or len(obj.shape) == 0)
+    if obj.kind == "time" and name in ("format", "scale"):
+        return OpaqueV("time" + name, obj)       # not tracked: comparisons with a literal are undecided (both arms explored)
     if name == "value":
         if obj.unit is not None:
             return Num(obj.expr / obj.unit, kind="array" if obj.shape else "number", shape=obj.shape, axes=obj.axes, isfloat=True)
@@ -1177,7 +1194,7 @@ def num_method(ev, x: Num, name, args, kwargs, fr, node):
     if name == "astype" and isinstance(kwargs.get("casting"), StrV) and kwargs["casting"].s == "safe":
         dt = args[0] if args else kwargs.get("dtype")
         if isinstance(dt, ExtV) and isinstance(x.dtype, ExtV):
-            a, b = x.dtype.dotted.split(".")[-1], dt.dotted.split(".")[-1]
+            a, b = x.dtype.dotted.split(".")[-1].split(":")[0], dt.dotted.split(".")[-1].split(":")[0]
             if a in NP_DTYPES and b in NP_DTYPES:
                 ok = can_cast_safe(a, b)
                 if ok is False:
@@ -1990,6 +2007,28 @@ def h_zeros(ev, args, kwargs, fr, node, fill=0):
     return arr
 
 
+def _dtype_name(d):
+    if isinstance(d, ExtV) and d.dotted.startswith("numpy."):
+        return d.dotted[6:].split(":")[0]
+    return None
+
+
+def h_can_cast(ev, args, kwargs, fr, node):
+    src = args[0]
+    dst = args[1] if len(args) > 1 else kwargs.get("to")
+    casting = kwargs.get("casting", args[2] if len(args) > 2 else StrV("safe"))
+    if isinstance(src, Num):
+        src = src.dtype
+    a, b = _dtype_name(src), _dtype_name(dst)
+    if a in NP_DTYPES and b in NP_DTYPES and isinstance(casting, StrV):
+        import numpy as np
+        try:
+            return BoolV(bool(np.can_cast(np.dtype(getattr(np, a)), np.dtype(getattr(np, b)), casting=casting.s)))
+        except Exception:
+            pass
+    ev.unsupported("np.can_cast between dtypes the evaluator does not know", node, fr)
+
+
 def h_full(ev, args, kwargs, fr, node):
     fill = kwargs.get("fill_value", args[1] if len(args) > 1 else None)
     if not isinstance(fill, Num) or not fill.expr.is_number:
@@ -2650,6 +2689,7 @@ EXT = {
     "dask.array.fft.fftfreq": lambda ev, a, k, fr, n: h_fftfreq(ev, a, k, fr, n, backend="dask"),
     "numpy.zeros": h_zeros, "numpy.ones": lambda ev, a, k, fr, n: h_zeros(ev, a, k, fr, n, fill=1),
     "numpy.full": lambda ev, a, k, fr, n: h_full(ev, a, k, fr, n),
+    "numpy.can_cast": lambda ev, a, k, fr, n: h_can_cast(ev, a, k, fr, n),
     "numpy.array": h_array, "numpy.asarray": h_array, "numpy.asanyarray": h_array,
     "dask.array.asanyarray": lambda ev, a, k, fr, n: a[0].like(a[0].expr, backend="dask") if isinstance(a[0], Num) else a[0],
     "dask.array.asarray": lambda ev, a, k, fr, n: a[0].like(a[0].expr, backend="dask") if isinstance(a[0], Num) else a[0],
